@@ -8,6 +8,7 @@ from mc.core import viol
 
 ID = 'C08'
 LEVEL = 'model_checking'
+RECHECK = 10   # cases are whole schedule explorations: fewer of them are re-executed for the determinism check
 CHUNK = 4
 RULE = ('the real Equalizer (run_comparison, worker loop, timeout / kill / recycle code) on virtual multiprocessing and virtual time: every '
         'behaviour vector over {equal, different, player raises, extractor raises, comparator raises, bare status, worker exits, hangs, '
